@@ -3,6 +3,7 @@ import SeqVerif.Model.SeqQLFilterLemmas
 import SeqVerif.Model.LegacyParserLemmas
 import SeqVerif.Model.SeqQLLexerLemmas
 import SeqVerif.Extracted.C12
+import SeqVerif.Props.C02
 /-!
 # C12 - query parsing is total and preserves the boolean meaning of the query
 
@@ -390,6 +391,100 @@ theorem c12_total_agg_filter (cs : Bool) (rs : List Rn) :
       · intro b _; split <;> simp
       · intro b _; split <;> simp
 
+/-! ## composition with C02: what a parsed query selects in the store
+
+C02 (`SV.EvalTree`, `SV.Spec`) proves that the eval tree built from a `Spec.Query` yields exactly the LIDs of the
+documents `Spec.docMatches` accepts, and that `EvalTree.search` equals `Spec.search`.  Here the ASTs the parsers return
+are translated into `Spec.Query` and the two readings of the operators are shown to be the same function. -/
+
+/-- a term of the parser models as a `Spec.Term` (`enc` = UTF-8 encoder of a code point): `TermSymbol` is the wildcard -/
+def toSpecTerm (enc : Nat → List Nat) (t : Term) : SV.Spec.Term := if t.sym then .star else .text (t.data.flatMap enc)
+
+/-- a range bound: the wildcard term is the open end -/
+def toSpecBound (enc : Nat → List Nat) (t : Term) : Option SV.Spec.Bytes := if t.sym then none else some (t.data.flatMap enc)
+
+/-- `*parser.Literal` / `*parser.Range` as `Spec.Leaf` -/
+def toSpecLeaf (enc : Nat → List Nat) : Leaf → SV.Spec.Leaf
+  | .lit f ts => .lit f (ts.map (toSpecTerm enc))
+  | .range f a b ia ib => .range f (toSpecBound enc a) ia (toSpecBound enc b) ib
+
+/-- the AST of the parsers (AND / OR / NAND, NOT - after `propagateNot` only at the root, but any position is
+translated) as the query tree of C02, children in the same order (`children[0]`, `children[1]`) -/
+def toQuery {α : Type} (f : α → SV.Spec.Leaf) : Ast α → SV.Spec.Query
+  | .leaf a => .leaf (f a)
+  | .not c => .not (toQuery f c)
+  | .bin .and l r => .and (toQuery f l) (toQuery f r)
+  | .bin .or l r => .or (toQuery f l) (toQuery f r)
+  | .bin .nand l r => .nand (toQuery f l) (toQuery f r)
+
+/-- **The two models read a tree the same way**: C02's `docMatches` on the translated query is this file's `eval`
+with every leaf interpreted on the document (`NAND l r` = `¬l ∧ r` on both sides, `children[0]` the negative one). -/
+theorem c12_toQuery_docMatches {α : Type} (f : α → SV.Spec.Leaf) (t : Ast α) (d : SV.Spec.Doc) :
+    SV.Spec.docMatches (toQuery f t) d = t.eval (fun a => d.hasLeaf (f a)) := by
+  induction t with
+  | leaf a => rfl
+  | not c ih => simp [toQuery, SV.Spec.docMatches, Ast.eval, ih]
+  | bin op l r ihl ihr => cases op <;> simp [toQuery, SV.Spec.docMatches, Ast.eval, ihl, ihr]
+
+/-- `Spec.search` depends on the query only through `docMatches` -/
+theorem c12_spec_search_congr (docs : List SV.Spec.Doc) (q1 q2 : SV.Spec.Query)
+    (h : ∀ d, SV.Spec.docMatches q1 d = SV.Spec.docMatches q2 d) (from_ to : Nat) (asc : Bool) (limit : Nat) (wt : Bool) :
+    SV.Spec.search docs q1 from_ to asc limit wt = SV.Spec.search docs q2 from_ to asc limit wt := by
+  have : SV.Spec.hits docs q1 from_ to = SV.Spec.hits docs q2 from_ to := by
+    unfold SV.Spec.hits
+    apply List.filter_congr
+    intro d _
+    rw [h d]
+  simp only [SV.Spec.search, this]
+
+/-- the rewritten query (`propagateNot` + root NOT) selects the documents of the tree that was parsed -/
+theorem c12_finish_docMatches {α : Type} (f : α → SV.Spec.Leaf) (e : Ast α) (h : e.NoNand) (d : SV.Spec.Doc) :
+    SV.Spec.docMatches (toQuery f (finish e)) d = SV.Spec.docMatches (toQuery f e) d := by
+  rw [c12_toQuery_docMatches, c12_toQuery_docMatches, finish_sound _ e h]
+
+/-- **End to end (SeqQL): searching with a parsed query returns exactly the documents the written expression denotes.**
+For every token sequence of the reference grammar denoting `e` (within the nesting limit), `ParseSeqQL` returns a
+query `q`, and on every well-formed fraction index C02's search with `q` - eval tree with NAND nodes, borders, iteration,
+limit, total - equals the Spec's search for the *written* expression `e` over the stored documents. -/
+theorem c12_search_parsed_seqql (enc : Nat → List Nat) (c : Cfg) (mx : Option Nat) {sep : LTok → Prop} {k : Nat}
+    {ts : List LTok} {e : Ast Leaf} (hg : G (seqqlSkel c mx) sep 0 true k ts e) (hk : (seqqlSkel c mx).fits k)
+    (idx : SV.EvalTree.Index) (hwf : SV.EvalTree.WF idx) (hs : SV.Borders.SortedDesc idx.ids)
+    (hr : ∀ id ∈ idx.ids, id.rid ≤ SV.Borders.maxU64) (from_ to : Nat)
+    (h0 : 0 < from_ ∨ ∀ id ∈ idx.ids, id ≠ ⟨0, 0⟩) (asc : Bool) (limit : Nat) (withTotal : Bool) :
+    ∃ q, parseSeqQL c mx ts = .ok (q, []) ∧
+      SV.EvalTree.search idx (toQuery (toSpecLeaf enc) q) from_ to asc limit withTotal
+        = SV.Spec.search (SV.EvalTree.docsOf idx) (toQuery (toSpecLeaf enc) e) from_ to asc limit withTotal := by
+  refine ⟨finish e, (c12_lexer_tokens_precedence c mx hg hk).1, ?_⟩
+  rw [SV.Props.C02.c02_search_eq_spec idx hwf hs hr _ from_ to h0 asc limit withTotal]
+  exact c12_spec_search_congr _ _ _ (c12_finish_docMatches _ e hg.noNand) from_ to asc limit withTotal
+
+/-- **End to end, any token type and both parsers** (abstract skeleton level): the query `ParseSeqQL` / `ParseQuery`
+return for a sentence of the grammar, searched by C02's model, gives the Spec's answer for the written tree. -/
+theorem c12_search_parsed_skeleton {S : Skel τ α} (hS : S.Good) (f : α → SV.Spec.Leaf) {sep : τ → Prop} {k : Nat}
+    {ts : List τ} {e : Ast α} (hk : S.fits k)
+    (idx : SV.EvalTree.Index) (hwf : SV.EvalTree.WF idx) (hs : SV.Borders.SortedDesc idx.ids)
+    (hr : ∀ id ∈ idx.ids, id.rid ≤ SV.Borders.maxU64) (from_ to : Nat)
+    (h0 : 0 < from_ ∨ ∀ id ∈ idx.ids, id ≠ ⟨0, 0⟩) (asc : Bool) (limit : Nat) (withTotal : Bool) :
+    (G S sep 0 true k ts e → ∃ q, sqParse S ts = .ok q ∧
+      SV.EvalTree.search idx (toQuery f q) from_ to asc limit withTotal
+        = SV.Spec.search (SV.EvalTree.docsOf idx) (toQuery f e) from_ to asc limit withTotal) ∧
+    (G S.legacy sep 0 true k ts e → ∃ q, lgParse S ts = .ok q ∧
+      SV.EvalTree.search idx (toQuery f q) from_ to asc limit withTotal
+        = SV.Spec.search (SV.EvalTree.docsOf idx) (toQuery f e) from_ to asc limit withTotal) := by
+  refine ⟨fun hg => ⟨finish e, (c12_seqql_precedence hS hg hk).2.1, ?_⟩, fun hg => ⟨finish e, (c12_legacy_precedence hS hg hk).2.1, ?_⟩⟩
+  · rw [SV.Props.C02.c02_search_eq_spec idx hwf hs hr _ from_ to h0 asc limit withTotal]
+    exact c12_spec_search_congr _ _ _ (c12_finish_docMatches f e hg.noNand) from_ to asc limit withTotal
+  · rw [SV.Props.C02.c02_search_eq_spec idx hwf hs hr _ from_ to h0 asc limit withTotal]
+    exact c12_spec_search_congr _ _ _ (c12_finish_docMatches f e hg.noNand) from_ to asc limit withTotal
+
+/-- C02's eval tree on the translated AST yields exactly the LIDs whose documents the AST accepts under this file's
+`eval` - the NAND child order of `propagateNot` (`children[0]` negative) is the one `buildEvalTree` consumes -/
+theorem c12_evalTree_of_ast {α : Type} (f : α → SV.Spec.Leaf) (t : Ast α) (idx : SV.EvalTree.Index)
+    (hwf : SV.EvalTree.WF idx) (rev : Bool) (lo hi v : Nat) :
+    v ∈ SV.EvalTree.evalTree idx rev lo hi (toQuery f t) ↔
+      (lo ≤ v ∧ v ≤ hi ∧ t.eval (fun a => (SV.EvalTree.docAt idx v).hasLeaf (f a)) = true) := by
+  rw [(SV.Props.C02.c02_evalTree_denotes idx hwf rev lo hi (toQuery f t)).2 v, c12_toQuery_docMatches]
+
 /-! ## Obligations on facts re-extracted from /repo on every run -/
 
 open SV.Extracted.C12
@@ -400,6 +495,19 @@ theorem c12_x_eval_dispatch :
     evalDispatch = ["LogicalAnd=node.NewAnd(0,1)", "LogicalOr=node.NewOr(0,1)", "LogicalNAnd=node.NewNAnd(0,1)", "LogicalNot=node.NewNot(0)"] ∧
     nandParams = ["negative", "regular", "reverse"] ∧ notViaNand = ["NewNAnd(child, nodeRange, reverse)"] ∧
     [opLogicalOr, opLogicalAnd, opLogicalNot, opLogicalNAnd] = [0, 1, 2, 3] := by decide
+
+/-- one table, two renderings: the operator dispatch this property extracts and the one C02 extracts (`c02_x_dispatch`)
+are the same rows (operator, node constructor, children in positions 0 and 1) -/
+def dispatchRows : List (String × String × String × String) :=
+  [("LogicalAnd", "NewAnd", "0,1", "children[0], children[1], reverse"),
+   ("LogicalOr", "NewOr", "0,1", "children[0], children[1], reverse"),
+   ("LogicalNAnd", "NewNAnd", "0,1", "children[0], children[1], reverse"),
+   ("LogicalNot", "NewNot", "0", "children[0], minVal, maxVal, reverse")]
+
+theorem c12_x_dispatch_same_table_as_c02 :
+    evalDispatch = dispatchRows.map (fun r => r.1 ++ "=node." ++ r.2.1 ++ "(" ++ r.2.2.1 ++ ")") ∧
+    SV.Extracted.C02.evalDispatch = dispatchRows.map (fun r => "parser." ++ r.1 ++ " => node." ++ r.2.1 ++ "(" ++ r.2.2.2 ++ ")") := by
+  decide
 
 /-- the control skeleton of `propagateNot` is the one `SV.Parser.propagateNot` transcribes -/
 theorem c12_x_propagateNot :
@@ -519,6 +627,15 @@ example : parseQueryRunes ⟨false, true, none⟩ (some 1000)
     = .ok (.leaf (.lit [97] [⟨false, [98]⟩])) := by decide
 example : parseQueryRunes ⟨false, true, none⟩ (some 1000)
     [⟨[97], 97, true, false, false, 97, false⟩, ⟨[58], 58, false, false, false, 58, false⟩] = .err := by decide
+
+/-- composition with C02 on a concrete query: `a and not b` is rewritten to `NAND b a`; C02's `docMatches` accepts the
+document that has token `f:a` only and rejects the one that has both -/
+example :
+    let la : Leaf := .lit [102] [⟨false, [97]⟩]
+    let lb : Leaf := .lit [102] [⟨false, [98]⟩]
+    let q := toQuery (toSpecLeaf fun c => [c]) (finish (.bin .and (.leaf la) (.not (.leaf lb))))
+    SV.Spec.docMatches q ⟨⟨1, 1⟩, [([102], [97])], []⟩ = true ∧
+    SV.Spec.docMatches q ⟨⟨1, 2⟩, [([102], [97]), ([102], [98])], []⟩ = false := by decide
 
 /-- the hypotheses of `c12_total_old_partial` are satisfiable -/
 example : ∀ fid : Nat, (FType.searchable ((fun (_ : Nat) => FType.text) fid)) = true ∨ (fun (_ : Nat) => FType.text) fid = FType.noop :=
